@@ -154,11 +154,17 @@ def _own_namespace(repo, rep, pa):
               if isinstance(n, ast.Subscript) and src(n.value) == var
               and isinstance(n.slice, ast.Constant)}
     t = src(test)
-    nsf = "%s['namespace']" % var
-    rep.check(("%s in drop_ns" % nsf) in t and
-              ("%s == XMLNS_NS" % nsf) in t and
-              ("%s['value'] in drop_ns" % var) in t and
-              isinstance(test, ast.BoolOp) and isinstance(test.op, ast.Or),
+    okt = False
+    for form in ("_A['namespace'] in drop_ns or (_A['namespace'] == XMLNS_NS"
+                 " and _A['value'] in drop_ns)",
+                 "_A['namespace'] in drop_ns or (_A['value'] in drop_ns and "
+                 "_A['namespace'] == XMLNS_NS)",
+                 "(_A['namespace'] == XMLNS_NS and _A['value'] in drop_ns) "
+                 "or _A['namespace'] in drop_ns"):
+        b_ = L.match(L.pat(form, "expr"), test)
+        if b_ is not None and src(b_["_A"]) == var:
+            okt = True
+    rep.check(okt,
               "R18.4", pa.qualname, "an attribute is dropped iff its "
               "namespace is a language namespace, or it is an xmlns "
               "declaration of one", construct="drop-test", where=L.where(pa),
